@@ -6,12 +6,17 @@ import (
 	"fmt"
 	"os"
 
+	"verif/harness/clockx"
+	"verif/harness/forge"
 	"verif/harness/page"
 	"verif/harness/world"
 )
 
 var commands = map[string]func(args []string){
 	"page":         page.Run,
+	"clock":        clockx.Run,
+	"forge":        forge.Run,
+	"forge-worker": forge.Worker,
 	"world":        world.RunCmd,
 	"world-worker": world.WorkerCmd,
 }
